@@ -16,7 +16,7 @@ MODULE_DEFAULTS = {
 }
 
 
-def tlc(name, module, consts=None, invariants=(), properties=(), workers=4, timeout=900, **kw):
+def tlc(name, module, consts=None, invariants=(), properties=(), workers=4, timeout=2400, **kw):
     c = dict(MODULE_DEFAULTS.get(module, {}))
     c.update(consts or {})
     d = dict(name=name, module=module, consts=c, invariants=list(invariants), properties=list(properties),
